@@ -97,7 +97,8 @@ def case_strategy(draw, half):
     # shapes that run into a recorded finding are generated in a minority of cases only (one quirk at a time), so that
     # the search goes on behind them: wells without any control keyword; report times off midnight (fractional TSTEP,
     # LAB hours); DRVDT without DRSDT
-    case["quirk"] = draw(st.sampled_from([None] * 9 + ["bare_wells", "fractional_time", "drvdt"]))
+    # an action that ran more than once
+    case["quirk"] = draw(st.sampled_from([None] * 12 + ["bare_wells", "fractional_time", "drvdt", "action_reruns"]))
     return case
 
 
@@ -463,6 +464,8 @@ class C05(Check):
         runs = []
         for j in range(min(case["nruns"], 3) if S["actions"] else 0):
             a = S["actions"][int(U(salt, "act", j) * len(S["actions"]))]
+            if case.get("quirk") != "action_reruns" and any(r0["name"] == a for r0 in runs):
+                continue        # an action that ran twice comes back with run count 1 (known finding)
             names = [W["name"] for W in S["wells"] if U(salt, "actw", j, W["name"]) < 0.5]
             runs.append({"name": a, "time": S["start"] + int(secs[n - 1]) + 3600 * (j + 1), "wells": names})
         req = dict(text=base, rst_text=rst, dir=d, base="BASE", step=n, evals=evals, udq_eval=True, action_runs=runs,
@@ -677,7 +680,10 @@ class C05(Check):
             if a["run_count"] != b["run_count"]:
                 return V("ACTIONX run count differs after the round trip", {"action": name, "saved": a["run_count"], "loaded": b["run_count"]},
                          "A:action-run-count")
-            if a["run_count"] and a["run_time"] != b["run_time"]:
+            # the last run time is stored in SACT (REAL) as elapsed time in deck units: single precision of the elapsed
+            # time (+ 8 digits when formatted), truncated to whole seconds on the way back
+            el = abs(a["run_time"] - S["start"]) if a["run_count"] else 0
+            if a["run_count"] and abs(a["run_time"] - b["run_time"]) > el * (2 * EPS32 + (5.0e-8 if case["fmt"] else 0.0)) + 1:
                 return V("ACTIONX last run time differs after the round trip", {"action": name, "saved": a["run_time"], "loaded": b["run_time"]},
                          "A:action-run-time")
         return None
